@@ -1,9 +1,9 @@
 ----------------------------- MODULE Trace_Build -----------------------------
 (***************************************************************************)
 (* C->S for Lifecycle.tla, build alphabet (C14).  Three kinds of trace:      *)
-(*  "history"   BuildEq(o1) ... BuildEq(ok) BuildMesh Geometry Write, all    *)
-(*              equilibria built from the SAME caller arrays in one          *)
-(*              interpreter; the written file must be the one a fresh        *)
+(*  "history"   BuildEq(i1, o1) [BuildMesh Geometry] ... BuildEq(ik, ok)      *)
+(*              BuildMesh Geometry Write in one interpreter, from one or two  *)
+(*              caller array sets; the written file must be the one a fresh   *)
 (*              interpreter writes for the last option set, and no BuildEq   *)
 (*              may change the caller's arrays;                              *)
 (*  "repeat"    the same configuration generated in separate processes;      *)
@@ -21,15 +21,16 @@ TBInit == Init /\ tid \in 1..Len(JT) /\ l = 1
 IsEv(e) == T.kind = "history" /\ l <= Len(Tr) /\ Tr[l].ev = e /\ l' = l + 1 /\ UNCHANGED tid
 
 TBuildEq ==
-  /\ IsEv("BuildEq") /\ Tr[l].out = "ok" /\ BuildEq("I1", Tr[l].arg)
+  /\ IsEv("BuildEq") /\ Tr[l].out = "ok" /\ BuildEq(Tr[l].input, Tr[l].arg)
   \* the specification (Intended) leaves arr unchanged: the observation must agree
-  /\ Clause("CallerArraysUnchanged", (Tr[l].changed = 1) = (arr'["I1"] = "modified") /\ (Tr[l].pristine = 1) = (arr'["I1"] = "orig"))
+  /\ Clause("CallerArraysUnchanged", (Tr[l].changed = 1) = (arr'[Tr[l].input] = "modified") /\ (Tr[l].pristine = 1) = (arr'[Tr[l].input] = "orig"))
 TBuildMesh == IsEv("BuildMesh") /\ BuildMesh
 TGeometry == IsEv("Geometry") /\ Geometry /\ last' = "ok"
 TWrite ==
   /\ IsEv("Write") /\ Write
   \* content is a function of (input, options) only
-  /\ Clause("Deterministic", Tr[l].digest = T.fresh[eq.opts] /\ eq.arrAtBuild = "orig")
+  \* (whatever was built, meshed or computed before in the same interpreter, from these or from other arrays)
+  /\ Clause("Deterministic", Tr[l].digest = T.fresh[eq.input][eq.opts] /\ eq.arrAtBuild = "orig")
 
 TRepeat ==
   /\ T.kind = "repeat" /\ l = 1 /\ l' = 2 /\ UNCHANGED <<vars, tid>>
